@@ -59,7 +59,12 @@ class ParsedHeaders(Mapping[bytes, Sequence[BaseHeader]]):
             #   https://github.com/python/typeshed/pull/4365
             # assign to hdr_name, hdr_value = ... instead.
             hdr_tuple = SMTP.header_source_parse(lines)
-            yield cls._registry(hdr_tuple[0], hdr_tuple[1])
+            try:
+                yield cls._registry(hdr_tuple[0], hdr_tuple[1])
+            except (IndexError, AttributeError, ValueError):
+                # the header value parser can fail on malformed values,
+                # such headers are treated as absent
+                pass
 
     def __repr__(self) -> str:
         return repr(dict(self))
